@@ -570,7 +570,13 @@ Section OFileOps.
 
   Definition of_seek (offset whence : Z) : handle * res :=
     o_prologue EG_Closed (fun e => (f, RFail e)) (fun c nd =>
-      if on_dir nd then (f, RInt 0)
+      if on_dir nd then
+        (* Seek(0, io.SeekStart) rewinds (drops the listing), any other Seek on a directory does nothing *)
+        if Z.eqb offset 0 && Z.eqb whence 0
+        then ({| hd_node := hd_node f; hd_view := hd_view f; hd_name := hd_name f; hd_at := hd_at f;
+                 hd_mode := hd_mode f; hd_dir_infos := None; hd_dir_names := hd_dir_names f;
+                 hd_dir_index := 0 |}, RInt 0)
+        else (f, RInt 0)
       else
         let size := Z.of_nat (length (on_data nd)) in
         let target := if Z.eqb whence 0 then Some offset
@@ -616,31 +622,20 @@ Section OFileOps.
     {| hd_node := hd_node f; hd_view := hd_view f; hd_name := hd_name f; hd_at := hd_at f; hd_mode := hd_mode f;
        hd_dir_infos := infos; hd_dir_names := names; hd_dir_index := ix |}.
 
-  (* the batching shared by ReadDir(n) and Readdirnames(n): own cache, shared index *)
-  Definition o_batch {A} (n : Z) (cache0 : option (list A)) (all : list A)
-             (set : option (list A) -> nat -> handle) (ret : list A -> option ekind -> res) : handle * res :=
-    let fresh := Z.leb n 0 || match cache0 with None => true | Some _ => false end in
-    if fresh && Z.leb n 0 then (set None 0, ret all None)
-    else
-      let cache := if fresh then none_if_empty all else cache0 in
-      let ix := if fresh then 0 else hd_dir_index f in
-      let l := match cache with Some l => l | None => [] end in
-      if Nat.leb (length l) ix then (set None 0, ret [] (Some EG_EOF))
+  (* ReadDir(n) and Readdirnames(n): one cursor over one listing taken by the first read (MemFile.dir_batch) *)
+  Definition o_dir_read (n : Z) (ret : list finfo -> option ekind -> res) : handle * res :=
+    o_prologue (if isw then EW_InvalidHandle else EG_FileClosing) (fun e => (f, RFail e)) (fun c nd =>
+      if negb (on_dir nd) then (f, RFail ENotADirectory)
       else
-        let e := Nat.min (ix + Z.to_nat n) (length l) in
-        (set cache e, ret (firstn (e - ix) (skipn ix l)) None).
+        let l := match hd_dir_infos f with Some l => l | None => o_dir_infos (on_ch nd) end in
+        let ix := match hd_dir_infos f with Some _ => hd_dir_index f | None => 0%nat end in
+        match dir_batch n l ix with
+        | None => (o_set_dir (Some l) (hd_dir_names f) ix, ret [] (Some EG_EOF))
+        | Some (b, e) => (o_set_dir (Some l) (hd_dir_names f) e, ret b None)
+        end).
 
-  Definition of_read_dir (n : Z) : handle * res :=
-    o_prologue (if isw then EW_InvalidHandle else EG_FileClosing) (fun e => (f, RFail e)) (fun c nd =>
-      if negb (on_dir nd) then (f, RFail ENotADirectory)
-      else o_batch n (hd_dir_infos f) (o_dir_infos (on_ch nd))
-             (fun infos ix => o_set_dir infos (hd_dir_names f) ix) (fun l e => RInfos l e)).
-
-  Definition of_readdirnames (n : Z) : handle * res :=
-    o_prologue (if isw then EW_InvalidHandle else EG_FileClosing) (fun e => (f, RFail e)) (fun c nd =>
-      if negb (on_dir nd) then (f, RFail ENotADirectory)
-      else o_batch n (hd_dir_names f) (dir_names (on_ch nd))
-             (fun names ix => o_set_dir (hd_dir_infos f) names ix) (fun l e => RNames l e)).
+  Definition of_read_dir (n : Z) : handle * res := o_dir_read n (fun l e => RInfos l e).
+  Definition of_readdirnames (n : Z) : handle * res := o_dir_read n (fun l e => RNames (map (@fi_name) l) e).
 End OFileOps.
 
 (* ---- composites of vfs.go over OpenFile (as in MemFile.v) -------------------- *)
